@@ -174,3 +174,756 @@ Proof.
       destruct (Z.ltb_spec 1048576 ((Z.of_nat (length b) - 1 - Z.of_nat k) * 8)); [lia|]. reflexivity. }
   cbn [eval]. cbn [eval] in E. rewrite E. cbn [sum_eval]. rewrite sum_pvs_shifted. reflexivity.
 Qed.
+
+(* ------------------------------------------------------------------ the two loops of decode_bits / encode_dict *)
+
+Lemma nbytes_le255 bm : (bm <= 255)%N -> nbytes bm = 1.
+Proof.
+  intros H. unfold nbytes. destruct (N.eq_dec bm 0) as [->|Hz]; [reflexivity|].
+  rewrite size_eq by exact Hz.
+  assert (N.log2 bm < 8)%N by (apply N.log2_lt_pow2; [lia|change (2 ^ 8)%N with 256%N; lia]).
+  replace ((N.succ (N.log2 bm) + 7) / 8)%N with 1%N; [reflexivity|].
+  apply N.div_unique with (r := N.log2 bm); lia.
+Qed.
+
+Lemma nbytes_gt255 bm : (255 < bm)%N -> nbytes bm = S (nbytes (N.shiftr bm 8)).
+Proof.
+  intros H. unfold nbytes.
+  assert (Hz : bm <> 0%N) by lia.
+  assert (H8 : (8 <= N.log2 bm)%N) by (change 8%N with (N.log2 256); apply N.log2_le_mono; lia).
+  assert (Hs : N.shiftr bm 8 <> 0%N).
+  { rewrite N.shiftr_div_pow2. change (2 ^ 8)%N with 256%N. intros E. apply N.div_small_iff in E; lia. }
+  rewrite (size_eq bm Hz), (size_eq _ Hs), N.log2_shiftr.
+  set (l := N.log2 bm) in *.
+  replace ((N.succ l + 7) / 8)%N with (N.succ ((N.succ (l - 8) + 7) / 8))%N.
+  - assert (Hq : (0 < (N.succ (l - 8) + 7) / 8)%N) by (apply N.div_str_pos; lia).
+    set (q := ((N.succ (l - 8) + 7) / 8)%N) in *. rewrite !N.max_r by lia. lia.
+  - replace (N.succ l + 7)%N with ((N.succ (l - 8) + 7) + 1 * 8)%N by lia. rewrite N.div_add by lia. lia.
+Qed.
+
+Definition agree_except (xs : list string) (ρ ρ' : env) : Prop := forall x, ~ In x xs -> lookup x ρ' = lookup x ρ.
+
+Lemma agree_refl xs ρ : agree_except xs ρ ρ.
+Proof. intros x _. reflexivity. Qed.
+Lemma agree_set xs ρ ρ' x v : In x xs -> agree_except xs ρ ρ' -> agree_except xs ρ (dict_set ρ' x v).
+Proof. intros Hx H y Hy. rewrite lookup_set_other by (intros ->; contradiction). apply H, Hy. Qed.
+
+Notation nb_cond := (ECmp CGt (EVar "_bm") (EConst (PInt 255))).
+Notation nb_body := [SAug "_bm" BShr (EConst (PInt 8)); SAug "_num" BAdd (EConst (PInt 1))].
+
+Lemma nb_loop : forall (k : nat) (bm : N) (num : Z) ρ f,
+  nbytes bm = S k -> k <= f ->
+  lookup "_bm" ρ = Some (PInt (Z.of_N bm)) -> lookup "_num" ρ = Some (PInt num) ->
+  exists ρ', crun (S f) (SWhile nb_cond nb_body) ρ = ONorm ρ' /\
+     lookup "_num" ρ' = Some (PInt (num + Z.of_nat k)) /\ agree_except ["_bm"; "_num"] ρ ρ'.
+Proof.
+  induction k as [|k IH]; intros bm num ρ f Hn Hf Hbm Hnum.
+  - assert (Hle : (bm <= 255)%N).
+    { destruct (N.le_gt_cases bm 255) as [H|H]; [exact H|]. rewrite nbytes_gt255 in Hn by exact H. pose proof (nbytes_pos (N.shiftr bm 8)). lia. }
+    rewrite run_S, exec_while. cbn [eval]. rewrite Hbm. cbn [cmp_eval as_int].
+    destruct (Z.ltb_spec 255 (Z.of_N bm)); [lia|]. cbn [truthy]. exists ρ. split; [reflexivity|]. split; [|apply agree_refl].
+    rewrite Hnum. f_equal. f_equal. lia.
+  - assert (Hgt : (255 < bm)%N).
+    { destruct (N.le_gt_cases bm 255) as [H|H]; [|exact H]. rewrite nbytes_le255 in Hn by exact H. lia. }
+    rewrite nbytes_gt255 in Hn by exact Hgt. injection Hn as Hn.
+    destruct f as [|f]; [lia|].
+    rewrite run_S, exec_while. cbn [eval]. rewrite Hbm. cbn [cmp_eval as_int].
+    destruct (Z.ltb_spec 255 (Z.of_N bm)); [|lia]. cbn [truthy].
+    rewrite exec_block_cons. cbn [exec exec_simple eval]. rewrite Hbm. cbn [bin_eval as_int].
+    destruct (Z.ltb_spec 8 0); [lia|].
+    rewrite exec_block_cons. cbn [exec exec_simple eval]. lk. rewrite Hnum. cbn [bin_eval as_int]. rewrite exec_block_nil.
+    change 8%Z with (Z.of_N 8). rewrite Z_of_N_shiftr.
+    destruct (IH (N.shiftr bm 8) (num + 1)%Z (dict_set (dict_set ρ "_bm" (PInt (Z.of_N (N.shiftr bm 8)))) "_num" (PInt (num + 1))) f
+                 Hn ltac:(lia) ltac:(lk; reflexivity) ltac:(lk; reflexivity)) as (ρ' & Hrun & Hnum' & Hag).
+    exists ρ'. split; [exact Hrun|]. split.
+    + rewrite Hnum'. f_equal. f_equal. lia.
+    + intros x Hx. rewrite Hag by exact Hx. lk. 
+      rewrite !lookup_set_other; [reflexivity| |]; intros ->; apply Hx; cbn; auto.
+Qed.
+
+(* while not x & 1: x >>= 1; y >>= 1      (decode)        /      while not x & 1: x >>= 1; y <<= 1      (encode) *)
+Notation tz_cond x := (ENot (EBin BAnd (EVar x) (EConst (PInt 1)))).
+Notation tz_body x y o := [SAug x BShr (EConst (PInt 1)); SAug y o (EConst (PInt 1))].
+
+Lemma iter_succ_r' {A} n (f : A -> A) x : Nat.iter (S n) f x = Nat.iter n f (f x).
+Proof. induction n as [|n IH]; [reflexivity|]. change (Nat.iter (S (S n)) f x) with (f (Nat.iter (S n) f x)). rewrite IH. reflexivity. Qed.
+
+Lemma land1_even p : Z.land (Zpos p~0) 1 = 0%Z.  Proof. reflexivity. Qed.
+Lemma land1_odd p : Z.land (Zpos p~1) 1 = 1%Z.  Proof. reflexivity. Qed.
+
+Lemma tz_loop (x y : string) (o : binop) (step : N -> N) :
+  x <> y -> (o = BShr /\ step = (fun v => N.shiftr v 1)) \/ (o = BShl /\ step = (fun v => N.shiftl v 1)) ->
+  forall (p : positive) (v : N) ρ f,
+  N.to_nat (pos_ctz p) <= f ->
+  lookup x ρ = Some (PInt (Zpos p)) -> lookup y ρ = Some (PInt (Z.of_N v)) ->
+  exists ρ', crun (S f) (SWhile (tz_cond x) (tz_body x y o)) ρ = ONorm ρ' /\
+     lookup x ρ' = Some (PInt (Z.of_N (N.shiftr (Npos p) (pos_ctz p)))) /\
+     lookup y ρ' = Some (PInt (Z.of_N (Nat.iter (N.to_nat (pos_ctz p)) step v))) /\ agree_except [x; y] ρ ρ'.
+Proof.
+  intros Hxy Ho. induction p as [p IH|p IH|]; intros v ρ f Hf Hx Hy.
+  - rewrite run_S, exec_while. cbn [eval]. rewrite Hx. cbn [bin_eval as_int]. rewrite land1_odd. cbn [truthy negb Z.eqb].
+    exists ρ. cbn [pos_ctz N.to_nat Nat.iter]. rewrite N.shiftr_0_r. repeat split; try assumption; try apply agree_refl.
+  - cbn [pos_ctz] in *. rewrite N2Nat.inj_succ in Hf. destruct f as [|f]; [lia|].
+    rewrite run_S, exec_while. cbn [eval]. rewrite Hx. cbn [bin_eval as_int]. rewrite land1_even. cbn [truthy negb Z.eqb].
+    rewrite exec_block_cons. cbn [exec exec_simple eval]. rewrite Hx. cbn [bin_eval as_int].
+    destruct (Z.ltb_spec 1 0); [lia|].
+    rewrite exec_block_cons. cbn [exec exec_simple eval]. rewrite lookup_set_other by (intros E; apply Hxy; now symmetry). rewrite Hy.
+    assert (Hsh : Z.shiftr (Zpos p~0) 1 = Zpos p) by reflexivity. rewrite Hsh.
+    assert (Hval : bin_eval o (PInt (Z.of_N v)) (PInt 1) = Ok (PInt (Z.of_N (step v)))).
+    { destruct Ho as [[-> ->]|[-> ->]]; cbn [bin_eval as_int]; destruct (Z.ltb_spec 1 0); try lia.
+      - change 1%Z with (Z.of_N 1). now rewrite Z_of_N_shiftr.
+      - destruct (Z.ltb_spec 1048576 1); [lia|]. change 1%Z with (Z.of_N 1). now rewrite Z_of_N_shiftl. }
+    rewrite Hval. rewrite exec_block_nil.
+    destruct (IH (step v) (dict_set (dict_set ρ x (PInt (Zpos p))) y (PInt (Z.of_N (step v)))) f ltac:(lia)) as (ρ' & Hrun & Hx' & Hy' & Hag).
+    { rewrite lookup_set_other by exact Hxy. apply lookup_set_same. }
+    { apply lookup_set_same. }
+    exists ρ'. split; [exact Hrun|]. split; [|split].
+    + rewrite Hx'. f_equal. f_equal. f_equal.
+      rewrite <- N.add_1_l, <- N.shiftr_shiftr. f_equal.
+    + rewrite Hy'. f_equal. f_equal. f_equal. rewrite N2Nat.inj_succ. rewrite iter_succ_r'. reflexivity.
+    + intros z Hz. rewrite Hag by exact Hz. rewrite !lookup_set_other; [reflexivity| |]; intros ->; apply Hz; cbn; auto.
+  - rewrite run_S, exec_while. cbn [eval]. rewrite Hx. cbn [bin_eval as_int]. 
+    change (Z.land 1 1) with 1%Z. cbn [truthy negb Z.eqb].
+    exists ρ. cbn [pos_ctz N.to_nat Nat.iter]. rewrite N.shiftr_0_r. repeat split; try assumption; try apply agree_refl.
+Qed.
+
+Lemma iter_shiftr v n : Nat.iter n (fun v => N.shiftr v 1) v = N.shiftr v (N.of_nat n).
+Proof.
+  induction n as [|n IH]; [now rewrite N.shiftr_0_r|]. change (Nat.iter (S n) (fun v => N.shiftr v 1) v) with (N.shiftr (Nat.iter n (fun v => N.shiftr v 1) v) 1).
+  rewrite IH, N.shiftr_shiftr. f_equal. lia.
+Qed.
+Lemma iter_shiftl v n : Nat.iter n (fun v => N.shiftl v 1) v = N.shiftl v (N.of_nat n).
+Proof.
+  induction n as [|n IH]; [now rewrite N.shiftl_0_r|]. change (Nat.iter (S n) (fun v => N.shiftl v 1) v) with (N.shiftl (Nat.iter n (fun v => N.shiftl v 1) v) 1).
+  rewrite IH, N.shiftl_shiftl. f_equal. lia.
+Qed.
+
+
+(* ------------------------------------------------------------------ layouts as Python values *)
+
+Definition unit_name (u : N) : option string :=
+  match u with 1%N => Some "b" | 2%N => Some "w" | 4%N => Some "dw" | _ => None end.
+Definition pv_of_fdesc (f : fdesc) : pv :=
+  match f with
+  | Mask m o => PList [PInt (Z.of_N m); PInt (Z.of_N o)]
+  | Blob u o len => PList [PStr (match unit_name u with Some s => s | None => "?" end); PInt (Z.of_N o); PInt (Z.of_N len)]
+  end.
+Definition pvs_of_layout (L : layout) : list (string * pv) := map (fun kf => (fst kf, pv_of_fdesc (snd kf))) L.
+Definition pv_of_layout (L : layout) : pv := PDict (pvs_of_layout L).
+
+(* what the model's decode1 returns when it returns *)
+Definition dec1 (data : bytes) (f : fdesc) : value :=
+  match f with
+  | Mask m o => match ctz m with
+                | Some z => VI (N.land (N.shiftr (ba_to_int (slice data (N.to_nat o) (N.to_nat o + nbytes m))) z) (N.shiftr m z))
+                | None => VI 0
+                end
+  | Blob u o len => VB (slice data (N.to_nat o) (N.to_nat (o + len * u)))
+  end.
+
+Definition fdesc_py_ok (f : fdesc) : bool :=
+  match f with
+  | Mask m _ => (0 <? m)%N && (N.size m <=? 4096)%N
+  | Blob u _ _ => match unit_name u with Some _ => true | None => false end
+  end.
+Definition fdesc_fuel (f : fdesc) : nat := match f with Mask m _ => N.to_nat (N.size m) + 9 | Blob _ _ _ => 1 end.
+
+Lemma decode1_dec1 data f : fdesc_py_ok f = true -> decode1 data f = Ok (dec1 data f).
+Proof.
+  destruct f as [m o|u o len]; cbn [fdesc_py_ok decode1 dec1]; [|reflexivity].
+  intros H. apply andb_prop in H. destruct H as [H _]. apply N.ltb_lt in H. destruct m as [|p]; [lia|]. reflexivity.
+Qed.
+
+Lemma py_slice_slice (l : bytes) (a b : N) :
+  py_slice l (Some (Z.of_N a)) (Some (Z.of_N b)) = slice l (N.to_nat a) (N.to_nat b).
+Proof.
+  unfold py_slice, slice, clip.
+  destruct (Z.ltb_spec (Z.of_N a) 0); [lia|]. destruct (Z.ltb_spec (Z.of_N b) 0); [lia|].
+  destruct (Nat.le_gt_cases (N.to_nat a) (length l)) as [Ha|Ha].
+  - replace (Z.to_nat (Z.min (Z.of_N a) (Z.of_nat (length l)))) with (N.to_nat a) by lia.
+    destruct (Nat.le_gt_cases (N.to_nat b) (length l)) as [Hb|Hb].
+    + replace (Z.to_nat (Z.min (Z.of_N b) (Z.of_nat (length l)))) with (N.to_nat b) by lia. reflexivity.
+    + replace (Z.to_nat (Z.min (Z.of_N b) (Z.of_nat (length l)))) with (length l) by lia.
+      rewrite !firstn_all2; [reflexivity| |]; rewrite skipn_length; lia.
+  - replace (Z.to_nat (Z.min (Z.of_N a) (Z.of_nat (length l)))) with (length l) by lia.
+    rewrite skipn_all. rewrite (skipn_all2 l) by lia. now rewrite !firstn_nil.
+Qed.
+
+Lemma nbytes_le_size m : nbytes m <= N.to_nat (N.size m) + 8.
+Proof.
+  unfold nbytes. assert ((N.size m + 7) / 8 <= N.size m + 7)%N by (apply N.div_le_upper_bound; lia). lia.
+Qed.
+
+Lemma pos_ctz_lt_size p : (pos_ctz p < N.size (Npos p))%N.
+Proof.
+  pose proof (ctz_le_log2 (Npos p) (pos_ctz p) eq_refl). rewrite size_eq by discriminate. lia.
+Qed.
+
+Lemma len2 {A} (a b : A) : length [a; b] = 2.  Proof. reflexivity. Qed.
+Lemma len3 {A} (a b c : A) : length [a; b; c] = 3.  Proof. reflexivity. Qed.
+
+Definition dec_for_body : list st := match nth 0 (fn_body PC_decode_bits) SPass with SFor _ _ b => b | _ => [] end.
+
+Ltac step := rewrite exec_block_cons; cbn [exec exec_simple eval eval_list eval_opt]; lk.
+
+Definition dec_if_then : list st := match nth 1 dec_for_body SPass with SIf _ a _ => a | _ => [] end.
+Definition dec_if_else : list st := match nth 1 dec_for_body SPass with SIf _ _ b => b | _ => [] end.
+
+Notation DEC_VARS := ["bitmask"; "byte_pos"; "_num"; "_bm"; "value"; "offset"; "length"].
+
+Ltac agree_tac Hx := repeat (rewrite lookup_set_other; [|intros ->; apply Hx; cbn; tauto]).
+
+Lemma dec_mask_block f data p o ρ :
+  (N.size (Npos p) <= 4096)%N -> N.to_nat (N.size (Npos p)) + 9 <= f ->
+  lookup "data" ρ = Some (PBytes data) -> lookup "val" ρ = Some (PList [PInt (Zpos p); PInt (Z.of_N o)]) ->
+  exists ρ', exec_block T0 (ccall f) (crun f) dec_if_then ρ = ONorm ρ' /\
+    lookup "value" ρ' = Some (pv_of_value (dec1 data (Mask (Npos p) o))) /\ agree_except DEC_VARS ρ ρ'.
+Proof.
+  intros Hsz Hf Hdata Hval. set (m := Npos p) in *.
+  unfold dec_if_then, dec_for_body. cbn [fn_body PC_decode_bits nth].
+  destruct f as [|f]; [lia|].
+  step. rewrite Hval. cbn [iter_items]. rewrite !len2. cbn [Nat.eqb combine fold_left fst snd].
+  step. step.
+  (* first loop: the number of bytes the mask spans *)
+  rewrite exec_block_cons, <- run_S.
+  destruct (nbytes m) as [|k] eqn:Hnb; [pose proof (nbytes_pos m); lia|].
+  pose proof (nbytes_le_size m) as Hnbs.
+  match goal with |- context [crun (S (S f)) _ ?r] => 
+    destruct (nb_loop k m 1 r (S f) Hnb ltac:(lia) ltac:(lk; reflexivity) ltac:(lk; reflexivity)) as (ρ1 & Hrun1 & Hnum1 & Hag1) end.
+  rewrite Hrun1. clear Hrun1.
+  (* value = scsi_ba_to_int(data[byte_pos : byte_pos + _num]) *)
+  rewrite exec_block_cons. cbn [exec exec_simple eval eval_list eval_opt].
+  rewrite Hnum1. rewrite !Hag1 by (cbn; intuition discriminate). lk. rewrite Hdata.
+  cbn [bin_eval as_int slice_eval opt_int].
+  replace (Z.of_N o + (1 + Z.of_nat k))%Z with (Z.of_N (o + N.of_nat (S k))) by lia.
+  rewrite py_slice_slice.
+  pose proof (py_ba_to_int (slice data (N.to_nat o) (N.to_nat (o + N.of_nat (S k)))) (S f)) as Hb2i.
+  unfold call_fun in Hb2i. rewrite Hb2i; [|unfold slice; rewrite firstn_length; lia|lia]. clear Hb2i.
+  (* second loop: shift the field down *)
+  rewrite exec_block_cons, <- run_S.
+  pose proof (pos_ctz_lt_size p) as Hctz. fold m in Hctz.
+  match goal with |- context [crun (S (S f)) _ ?r] =>
+    destruct (tz_loop "bitmask" "value" BShr (fun v => N.shiftr v 1) ltac:(discriminate) (or_introl (conj eq_refl eq_refl)) p
+                (ba_to_int (slice data (N.to_nat o) (N.to_nat (o + N.of_nat (S k))))) r (S f) ltac:(lia))
+      as (ρ2 & Hrun2 & Hbm2 & Hv2 & Hag2) end.
+  { rewrite lookup_set_other by discriminate. rewrite Hag1 by (cbn; intuition discriminate). lk. reflexivity. }
+  { apply lookup_set_same. }
+  rewrite Hrun2. clear Hrun2.
+  step. rewrite Hv2, Hbm2. cbn [bin_eval as_int]. rewrite Z_of_N_land. rewrite exec_block_nil.
+  eexists. split; [reflexivity|]. split.
+  - lk. cbn [dec1 ctz pv_of_value]. fold m. rewrite Hnb. rewrite iter_shiftr, N2Nat.id.
+    replace (N.to_nat (o + N.of_nat (S k))) with (N.to_nat o + S k) by lia. reflexivity.
+  - intros x Hx. agree_tac Hx. rewrite Hag2 by (cbn; cbn in Hx; tauto). agree_tac Hx.
+    rewrite Hag1 by (cbn; cbn in Hx; tauto). agree_tac Hx. reflexivity.
+Qed.
+
+Lemma ni30 : norm_index 3 0 = Some 0.  Proof. reflexivity. Qed.
+
+Lemma dec_blob_block f data u s o len ρ :
+  unit_name u = Some s ->
+  lookup "data" ρ = Some (PBytes data) -> lookup "val" ρ = Some (PList [PStr s; PInt (Z.of_N o); PInt (Z.of_N len)]) ->
+  exists ρ', exec_block T0 (ccall f) (crun f) dec_if_else ρ = ONorm ρ' /\
+    lookup "value" ρ' = Some (pv_of_value (dec1 data (Blob u o len))) /\ agree_except DEC_VARS ρ ρ'.
+Proof.
+  intros Hu Hdata Hval.
+  unfold dec_if_else, dec_for_body. cbn [fn_body PC_decode_bits nth].
+  assert (Hsl : forall a b c : pv, py_slice [a; b; c] (Some 1%Z) None = [b; c]) by reflexivity.
+  assert (Hcases : (u = 1%N /\ s = "b") \/ (u = 2%N /\ s = "w") \/ (u = 4%N /\ s = "dw")).
+  { unfold unit_name in Hu. destruct u as [|[[[]|[]|]|[[]|[]|]|]]; try discriminate; injection Hu as <-; auto. }
+  destruct Hcases as [[-> ->]|[[-> ->]|[-> ->]]].
+  - rewrite exec_block_cons, exec_if. cbn [eval]. rewrite Hval. cbn [index_eval as_int norm_index]. rewrite len3.
+    rewrite ni30. cbn [nth Z.to_nat cmp_eval py_eq String.eqb Ascii.eqb Bool.eqb truthy].
+    step. rewrite Hval. cbn [slice_eval opt_int as_int]. rewrite Hsl. cbn [iter_items]. rewrite !len2. cbn [Nat.eqb combine fold_left fst snd].
+    step. rewrite Hdata. cbn [bin_eval as_int slice_eval opt_int]. rewrite exec_block_nil. rewrite exec_block_nil.
+    replace (Z.of_N o + Z.of_N len)%Z with (Z.of_N (o + len * 1)) by lia. rewrite py_slice_slice.
+    eexists. split; [reflexivity|]. split; [lk; reflexivity|].
+    intros x Hx. agree_tac Hx. reflexivity.
+  - rewrite exec_block_cons, exec_if. cbn [eval]. rewrite Hval. cbn [index_eval as_int norm_index]. rewrite len3.
+    rewrite ni30. cbn [nth Z.to_nat cmp_eval py_eq String.eqb Ascii.eqb Bool.eqb truthy].
+    rewrite exec_block_cons, exec_if. cbn [eval]. rewrite Hval. cbn [index_eval as_int norm_index]. rewrite len3.
+    rewrite ni30. cbn [nth Z.to_nat cmp_eval py_eq String.eqb Ascii.eqb Bool.eqb truthy].
+    step. rewrite Hval. cbn [slice_eval opt_int as_int]. rewrite Hsl. cbn [iter_items]. rewrite !len2. cbn [Nat.eqb combine fold_left fst snd].
+    step. rewrite Hdata. cbn [bin_eval as_int slice_eval opt_int]. rewrite !exec_block_nil.
+    replace (Z.of_N o + Z.of_N len * 2)%Z with (Z.of_N (o + len * 2)) by lia. rewrite py_slice_slice.
+    eexists. split; [reflexivity|]. split; [lk; reflexivity|].
+    intros x Hx. agree_tac Hx. reflexivity.
+  - rewrite exec_block_cons, exec_if. cbn [eval]. rewrite Hval. cbn [index_eval as_int norm_index]. rewrite len3.
+    rewrite ni30. cbn [nth Z.to_nat cmp_eval py_eq String.eqb Ascii.eqb Bool.eqb truthy].
+    rewrite exec_block_cons, exec_if. cbn [eval]. rewrite Hval. cbn [index_eval as_int norm_index]. rewrite len3.
+    rewrite ni30. cbn [nth Z.to_nat cmp_eval py_eq String.eqb Ascii.eqb Bool.eqb truthy].
+    rewrite exec_block_cons, exec_if. cbn [eval]. rewrite Hval. cbn [index_eval as_int norm_index]. rewrite len3.
+    rewrite ni30. cbn [nth Z.to_nat cmp_eval py_eq String.eqb Ascii.eqb Bool.eqb truthy].
+    step. rewrite Hval. cbn [slice_eval opt_int as_int]. rewrite Hsl. cbn [iter_items]. rewrite !len2. cbn [Nat.eqb combine fold_left fst snd].
+    step. rewrite Hdata. cbn [bin_eval as_int slice_eval opt_int]. rewrite !exec_block_nil.
+    replace (Z.of_N o + Z.of_N len * 4)%Z with (Z.of_N (o + len * 4)) by lia. rewrite py_slice_slice.
+    eexists. split; [reflexivity|]. split; [lk; reflexivity|].
+    intros x Hx. agree_tac Hx. reflexivity.
+Qed.
+
+Ltac dec_tail Hrun Hvalue Hag Hres :=
+  unfold dec_if_then, dec_if_else, dec_for_body in Hrun; cbn [fn_body PC_decode_bits nth] in Hrun;
+  rewrite Hrun; step; rewrite Hvalue; rewrite !Hag by (cbn; intuition discriminate); lk; unfold with_var;
+  rewrite !Hag by (cbn; intuition discriminate); lk; rewrite Hres; cbn [update_at set_item]; rewrite exec_block_nil;
+  eexists; (split; [reflexivity|]); lk; rewrite !Hag by (cbn; intuition discriminate); lk; repeat split; assumption || reflexivity.
+
+Lemma dec_entry f data LL k fd cur ρ :
+  fdesc_py_ok fd = true -> fdesc_fuel fd <= f ->
+  lookup "data" ρ = Some (PBytes data) -> lookup "check_dict" ρ = Some (PDict LL) ->
+  lookup k LL = Some (pv_of_fdesc fd) -> lookup "result_dict" ρ = Some (PDict cur) ->
+  exists ρ', exec_block T0 (ccall f) (crun f) dec_for_body (dict_set ρ "key" (PStr k)) = ONorm ρ' /\
+    lookup "data" ρ' = Some (PBytes data) /\ lookup "check_dict" ρ' = Some (PDict LL) /\
+    lookup "result_dict" ρ' = Some (PDict (dict_set cur k (pv_of_value (dec1 data fd)))).
+Proof.
+  intros Hok Hf Hdata Hcd Hlk Hres.
+  unfold dec_for_body. cbn [fn_body PC_decode_bits nth].
+  step. rewrite Hcd. cbn [index_eval]. rewrite Hlk.
+  rewrite exec_block_cons, exec_if. cbn [eval]. lk.
+  destruct fd as [m o|u o len]; cbn [fdesc_py_ok fdesc_fuel pv_of_fdesc len_eval] in *; rewrite ?len2, ?len3; cbn [cmp_eval py_eq as_int].
+  - change (Z.eqb (Z.of_nat 2) 2) with true. cbn [truthy].
+    apply andb_prop in Hok. destruct Hok as [Hpos Hsz]. apply N.ltb_lt in Hpos. apply N.leb_le in Hsz.
+    destruct m as [|p]; [lia|].
+    match goal with |- context [exec_block _ _ _ _ ?r] =>
+      destruct (dec_mask_block f data p o r Hsz Hf ltac:(lk; exact Hdata) ltac:(lk; reflexivity)) as (ρ1 & Hrun & Hvalue & Hag) end.
+    dec_tail Hrun Hvalue Hag Hres.
+  - change (Z.eqb (Z.of_nat 3) 2) with false. cbn [truthy].
+    destruct (unit_name u) as [s|] eqn:Hu; [|discriminate].
+    match goal with |- context [exec_block _ _ _ _ ?r] =>
+      destruct (dec_blob_block f data u s o len r Hu ltac:(lk; exact Hdata) ltac:(lk; reflexivity)) as (ρ1 & Hrun & Hvalue & Hag) end.
+    dec_tail Hrun Hvalue Hag Hres.
+Qed.
+
+(* ------------------------------------------------------------------ decode_bits *)
+
+Lemma lookup_mid {A B} (g : A -> B) (done rest : list (string * A)) k a :
+  names_distinct (map fst (done ++ (k, a) :: rest)) = true ->
+  lookup k (map (fun kf => (fst kf, g (snd kf))) (done ++ (k, a) :: rest)) = Some (g a).
+Proof.
+  induction done as [|[k0 a0] done IH]; cbn [app map fst snd names_distinct lookup]; intros H.
+  - now rewrite String.eqb_refl.
+  - apply andb_prop in H. destruct H as [H1 H2]. destruct (String.eqb_spec k k0) as [->|Hne]; [|auto].
+    exfalso. apply negb_true_iff in H1. rewrite map_app in H1. cbn [map fst] in H1.
+    rewrite existsb_app in H1. cbn [existsb] in H1. rewrite String.eqb_refl in H1. cbn in H1. now rewrite orb_true_r in H1.
+Qed.
+
+Definition dec_value (data : bytes) (kf : string * fdesc) : string * pv := (fst kf, pv_of_value (dec1 data (snd kf))).
+
+Definition dec_inv (L : layout) (data : bytes) (cur : list (string * pv)) (ds : list pv) (ρ : env) : Prop :=
+  exists done rest, L = (done ++ rest)%list /\ ds = map (fun kf => PStr (fst kf)) rest /\
+    lookup "data" ρ = Some (PBytes data) /\ lookup "check_dict" ρ = Some (PDict (pvs_of_layout L)) /\
+    lookup "result_dict" ρ = Some (PDict (dict_update cur (map (dec_value data) done))).
+
+Lemma keys_of_layout (L : layout) :
+  map (fun kv : string * pv => PStr (fst kv)) (pvs_of_layout L) = map (fun kf : string * fdesc => PStr (fst kf)) L.
+Proof. unfold pvs_of_layout. rewrite map_map. reflexivity. Qed.
+
+Theorem py_decode_bits : forall (L : layout) (data : bytes) (cur : list (string * pv)) f,
+  forallb (fun kf => fdesc_py_ok (snd kf)) L = true -> names_distinct (map fst L) = true ->
+  Forall (fun kf => fdesc_fuel (snd kf) <= f) L ->
+  call_fun T0 conv_program (S f) "converter.decode_bits" [PBytes data; pv_of_layout L; PDict cur]
+  = Ok (PDict (dict_update cur (map (dec_value data) L))).
+Proof.
+  intros L data cur f Hok Hdist Hfuel.
+  unfold call_fun, call_with. cbn [lookup conv_program String.eqb Ascii.eqb Bool.eqb fn_params fn_body PC_decode_bits bind_params].
+  rewrite run_S, exec_if. cbn [eval truthy].
+  rewrite exec_block_cons, exec_for. cbn [eval lookup String.eqb Ascii.eqb Bool.eqb pv_of_layout iter_items].
+  rewrite keys_of_layout. change (pv_of_layout L) with (PDict (pvs_of_layout L)).
+  set (ρ0 := [("data", PBytes data); ("check_dict", PDict (pvs_of_layout L)); ("result_dict", PDict cur)]).
+  pose proof (for_consumes T0 (ccall f) (crun f) "key" dec_for_body (dec_inv L data cur)) as FC.
+  destruct (FC) with (ds := map (fun kf : string * fdesc => PStr (fst kf)) L) (ρ := ρ0) as (ρ' & Hrun & Hinv).
+  - (* one iteration *)
+    intros d ds ρ (done & rest & HL & Hds & Hdata & Hcd & Hres).
+    destruct rest as [|[k fd] rest]; [discriminate|]. cbn [map fst] in Hds. injection Hds as -> ->.
+    assert (Hin : In (k, fd) L) by (rewrite HL; apply in_or_app; right; now left).
+    rewrite forallb_forall in Hok. pose proof (Hok _ Hin) as Hok1. rewrite Forall_forall in Hfuel. pose proof (Hfuel _ Hin) as Hf1. cbn [snd] in Hok1, Hf1.
+    assert (Hlk : lookup k (pvs_of_layout L) = Some (pv_of_fdesc fd)).
+    { unfold pvs_of_layout. rewrite HL. apply lookup_mid. rewrite <- HL. exact Hdist. }
+    destruct (dec_entry f data (pvs_of_layout L) k fd _ ρ Hok1 Hf1 Hdata Hcd Hlk Hres) as (ρ1 & Hrun1 & Hd1 & Hc1 & Hr1).
+    exists ρ1. split; [exact Hrun1|]. exists (done ++ [(k, fd)])%list, rest. repeat split; try assumption.
+    + rewrite <- app_assoc. exact HL.
+    + rewrite Hr1. f_equal. f_equal. unfold dict_update. rewrite map_app, fold_left_app. reflexivity.
+  - exists [], L. repeat split; reflexivity.
+  - unfold dec_for_body in Hrun. cbn [fn_body PC_decode_bits nth] in Hrun. rewrite Hrun.
+    destruct Hinv as (done & rest & HL & Hds & _ & _ & Hres). symmetry in Hds. apply map_eq_nil in Hds. subst rest. rewrite app_nil_r in HL. subst done.
+    rewrite exec_block_cons. cbn [exec exec_simple eval]. rewrite Hres. reflexivity.
+Qed.
+
+(* ... which is what the hand-written model computes *)
+Lemma decode_bits_dec1 data L : forallb (fun kf => fdesc_py_ok (snd kf)) L = true ->
+  decode_bits data L = Ok (map (fun kf => (fst kf, dec1 data (snd kf))) L).
+Proof.
+  induction L as [|[k fd] L IH]; cbn [forallb decode_bits map fst snd]; [reflexivity|].
+  intros H. apply andb_prop in H. destruct H as [H1 H2]. rewrite (decode1_dec1 data fd H1), (IH H2). reflexivity.
+Qed.
+
+Theorem py_decode_bits_refines : forall (L : layout) (data : bytes) (cur : list (string * pv)) f r,
+  forallb (fun kf => fdesc_py_ok (snd kf)) L = true -> names_distinct (map fst L) = true ->
+  Forall (fun kf => fdesc_fuel (snd kf) <= f) L ->
+  decode_bits data L = Ok r ->
+  call_fun T0 conv_program (S f) "converter.decode_bits" [PBytes data; pv_of_layout L; PDict cur]
+  = Ok (PDict (dict_update cur (dict_of_decoded r))).
+Proof.
+  intros L data cur f r Hok Hd Hf Hr. rewrite (decode_bits_dec1 data L Hok) in Hr. injection Hr as <-.
+  rewrite py_decode_bits by assumption. unfold dict_of_decoded. rewrite map_map. reflexivity.
+Qed.
+
+(* ------------------------------------------------------------------ encode_dict: the byte-wise XOR loop *)
+
+(* for i in range(len(v)): result[off + i] ^= v[i]   — consumed from the front *)
+Fixpoint xor_from (cur : bytes) (off : nat) (v : bytes) : bytes :=
+  match v with
+  | [] => cur
+  | b :: v' => xor_from (set_nth cur off (N.lxor (nth off cur 0%N) b)) (S off) v'
+  end.
+
+Lemma set_nth_app {A} (pre post : list A) c x : set_nth (pre ++ c :: post)%list (length pre) x = (pre ++ x :: post)%list.
+Proof. induction pre as [|a pre IH]; [reflexivity|]. change (length (a :: pre)) with (S (length pre)). cbn [app set_nth]. now rewrite IH. Qed.
+
+Lemma set_nth_length {A} (l : list A) n x : length (set_nth l n x) = length l.
+Proof. revert n. induction l as [|a l IH]; intros [|n]; try reflexivity. change (length (set_nth (a :: l) (S n) x)) with (S (length (set_nth l n x))). now rewrite IH. Qed.
+
+Lemma nth_app_mid {A} (pre post : list A) c d : nth (length pre) (pre ++ c :: post)%list d = c.
+Proof. rewrite app_nth2 by lia. now rewrite Nat.sub_diag. Qed.
+
+Lemma split_at {A} (l : list A) n d : n < length l -> l = (firstn n l ++ nth n l d :: skipn (S n) l)%list /\ length (firstn n l) = n.
+Proof.
+  intros H. split; [|rewrite firstn_length; lia].
+  rewrite <- (firstn_skipn n l) at 1. f_equal. clear -H. revert n H. induction l as [|a l IH]; intros [|n] H.
+  - change (length (@nil A)) with 0 in H. lia.
+  - change (length (@nil A)) with 0 in H. lia.
+  - reflexivity.
+  - change (length (a :: l)) with (S (length l)) in H. cbn [skipn nth]. apply IH. lia.
+Qed.
+
+Lemma xor_at_cons (pre post : bytes) c b v :
+  length v <= length post ->
+  xor_at (pre ++ c :: post)%list (length pre) (b :: v) = (pre ++ N.lxor c b :: xor_list (firstn (length v) post) v ++ skipn (length v) post)%list.
+Proof.
+  intros H. unfold xor_at. change (length (b :: v)) with (S (length v)).
+  rewrite firstn_app, Nat.sub_diag, firstn_all. cbn [firstn]. rewrite app_nil_r.
+  rewrite skipn_app, skipn_all, Nat.sub_diag. cbn [skipn app firstn xor_list].
+  replace (length pre + S (length v)) with (length (pre ++ [c]) + length v) by (rewrite app_length; change (length [c]) with 1; lia).
+  replace (pre ++ c :: post)%list with ((pre ++ [c]) ++ post)%list by (rewrite <- app_assoc; reflexivity).
+  rewrite skipn_app, skipn_all2 by lia. replace (length (pre ++ [c]) + length v - length (pre ++ [c])) with (length v) by lia.
+  cbn [app]. reflexivity.
+Qed.
+
+Lemma xor_from_at : forall v r off, off + length v <= length r -> xor_from r off v = xor_at r off v.
+Proof.
+  induction v as [|b v IH]; intros r off H.
+  - unfold xor_at. change (length (@nil N)) with 0. cbn [xor_from firstn xor_list app]. rewrite Nat.add_0_r. symmetry. apply firstn_skipn.
+  - change (length (b :: v)) with (S (length v)) in H. cbn [xor_from].
+    destruct (split_at r off 0%N ltac:(lia)) as [Hr Hl]. set (pre := firstn off r) in *. set (post := skipn (S off) r) in *. set (c := nth off r 0%N) in *.
+    assert (Hpost : length v <= length post) by (unfold post; rewrite skipn_length; lia).
+    rewrite Hr. clearbody pre post c. subst off. rewrite set_nth_app. rewrite xor_at_cons by exact Hpost.
+    rewrite IH.
+    + replace (S (length pre)) with (length (pre ++ [N.lxor c b])) by (rewrite app_length; change (length [N.lxor c b]) with 1; lia).
+      replace (pre ++ N.lxor c b :: post)%list with ((pre ++ [N.lxor c b]) ++ post)%list by (rewrite <- app_assoc; reflexivity).
+      unfold xor_at. rewrite firstn_app, Nat.sub_diag, firstn_all. cbn [firstn]. rewrite app_nil_r.
+      rewrite skipn_app, skipn_all, Nat.sub_diag. cbn [skipn app].
+      rewrite skipn_app, skipn_all2 by lia. replace (length (pre ++ [N.lxor c b]) + length v - length (pre ++ [N.lxor c b])) with (length v) by lia.
+      cbn [app]. rewrite <- app_assoc. reflexivity.
+    + rewrite app_length. change (length (N.lxor c b :: post)) with (S (length post)). lia.
+Qed.
+
+Lemma norm_index_in len (z : Z) : (0 <= z < Z.of_nat len)%Z -> norm_index len z = Some (Z.to_nat z).
+Proof. intros H. unfold norm_index. destruct (Z.leb_spec 0 z); [|lia]. destruct (Z.ltb_spec z (Z.of_nat len)); [|lia]. reflexivity. Qed.
+
+Lemma skipn_nth_cons {A} (l : list A) i d : i < length l -> skipn i l = nth i l d :: skipn (S i) l.
+Proof.
+  revert i. induction l as [|a l IH]; intros [|i] H; try (change (length (@nil A)) with 0 in H; lia); [reflexivity|].
+  change (length (a :: l)) with (S (length l)) in H. cbn [skipn nth]. apply IH. lia.
+Qed.
+
+Lemma nth_ok (l : bytes) i : bytes_ok l -> (nth i l 0 < 256)%N.
+Proof.
+  intros H. destruct (Nat.lt_ge_cases i (length l)) as [Hi|Hi].
+  - unfold bytes_ok in H. rewrite Forall_forall in H. apply H. now apply nth_In.
+  - rewrite nth_overflow by exact Hi. lia.
+Qed.
+
+Lemma set_nth_ok (l : bytes) n x : bytes_ok l -> (x < 256)%N -> bytes_ok (set_nth l n x).
+Proof.
+  unfold bytes_ok. intros H Hx. revert n. induction H as [|a l Ha Hl IH]; intros n; [constructor|].
+  destruct n as [|n]; cbn [set_nth]; constructor; auto.
+Qed.
+
+Notation xor_body := [SStore "result" [] (EBin BAdd (EVar "bytepos") (EVar "i"))
+                        (EBin BXor (EIndex (EVar "result") (EBin BAdd (EVar "bytepos") (EVar "i"))) (EIndex (EVar "v") (EVar "i")))].
+
+Definition xor_inv (r v : bytes) (off : nat) (ρ : env) (ds : list pv) (ρ' : env) : Prop :=
+  exists i cur, i <= length v /\ ds = map (fun i => PInt (Z.of_nat i)) (seq i (length v - i)) /\
+    lookup "result" ρ' = Some (PBytes cur) /\ length cur = length r /\ bytes_ok cur /\
+    xor_from cur (off + i) (skipn i v) = xor_from r off v /\
+    lookup "v" ρ' = Some (PBytes v) /\ lookup "bytepos" ρ' = Some (PInt (Z.of_nat off)) /\ agree_except ["result"; "i"] ρ ρ'.
+
+Lemma xor_loop call again (r v : bytes) (off : nat) ρ :
+  off + length v <= length r -> bytes_ok r -> bytes_ok v ->
+  lookup "result" ρ = Some (PBytes r) -> lookup "v" ρ = Some (PBytes v) -> lookup "bytepos" ρ = Some (PInt (Z.of_nat off)) ->
+  exists ρ', for_iter T0 call again "i" xor_body (map (fun i => PInt (Z.of_nat i)) (seq 0 (length v))) ρ = ONorm ρ' /\
+    lookup "result" ρ' = Some (PBytes (xor_at r off v)) /\ agree_except ["result"; "i"] ρ ρ'.
+Proof.
+  intros Hlen Hr Hv Hres Hvv Hbp.
+  destruct (for_consumes T0 call again "i" xor_body (xor_inv r v off ρ)) with (ds := map (fun i => PInt (Z.of_nat i)) (seq 0 (length v))) (ρ := ρ)
+    as (ρ' & Hrun & Hinv).
+  - intros d ds ρ1 (i & cur & Hi & Hds & Hres1 & Hlc & Hokc & Hx & Hv1 & Hb1 & Hag).
+    destruct (length v - i) as [|m] eqn:Hm; [discriminate|]. rewrite <- cons_seq in Hds. cbn [map] in Hds. injection Hds as -> ->.
+    assert (Hlt : i < length v) by lia.
+    rewrite exec_block_cons. cbn [exec exec_simple eval eval_list]. lk. rewrite Hres1, Hb1, Hv1.
+    cbn [bin_eval as_int index_eval].
+    rewrite !norm_index_in by lia. cbn [bin_eval as_int]. rewrite Z_of_N_lxor.
+    unfold with_var. lk. rewrite Hres1. cbn [update_at set_item as_int]. rewrite norm_index_in by lia.
+    pose proof (nth_ok cur (Z.to_nat (Z.of_nat off + Z.of_nat i)) Hokc) as Hc256. pose proof (nth_ok v (Z.to_nat (Z.of_nat i)) Hv) as Hv256.
+    pose proof (lxor_lt _ _ 8 Hc256 Hv256) as Hx256. change (2 ^ 8)%N with 256%N in Hx256.
+    match goal with |- context [((0 <=? ?z) && (?z <? 256))%Z] => replace ((0 <=? z) && (z <? 256))%Z with true
+      by (symmetry; apply andb_true_intro; split; [apply Z.leb_le|apply Z.ltb_lt]; lia) end.
+    rewrite exec_block_nil. eexists. split; [reflexivity|].
+    exists (S i), (set_nth cur (off + i) (N.lxor (nth (off + i) cur 0%N) (nth i v 0%N))).
+    rewrite N2Z.id. replace (Z.to_nat (Z.of_nat off + Z.of_nat i)) with (off + i) by lia. rewrite Nat2Z.id.
+    repeat split.
+    + lia.
+    + replace (length v - S i) with m by lia. reflexivity.
+    + lk. reflexivity.
+    + now rewrite set_nth_length.
+    + apply set_nth_ok; [exact Hokc|]. rewrite Nat2Z.id in Hx256. replace (Z.to_nat (Z.of_nat off + Z.of_nat i)) with (off + i) in Hx256 by lia. exact Hx256.
+    + rewrite <- Hx. rewrite (skipn_nth_cons v i 0%N Hlt). cbn [xor_from]. replace (off + S i) with (S (off + i)) by lia. reflexivity.
+    + lk. exact Hv1.
+    + lk. exact Hb1.
+    + intros x Hxx. rewrite !lookup_set_other by (intros ->; apply Hxx; cbn; tauto). apply Hag, Hxx.
+  - exists 0, r. rewrite Nat.sub_0_r, Nat.add_0_r. cbn [skipn]. repeat split; try assumption; try reflexivity; try lia; try apply agree_refl.
+  - exists ρ'. split; [exact Hrun|]. destruct Hinv as (i & cur & Hi & Hds & Hres1 & Hlc & Hokc & Hx & _ & _ & Hag).
+    assert (i = length v).
+    { destruct (length v - i) as [|m] eqn:Hm; [lia|]. rewrite <- cons_seq in Hds. discriminate. }
+    subst i. rewrite skipn_all in Hx. cbn [xor_from] in Hx. subst cur. split; [|exact Hag].
+    rewrite Hres1. now rewrite xor_from_at.
+Qed.
+
+(* ------------------------------------------------------------------ encode_dict *)
+
+Definition enc_for_body : list st := match nth 0 (fn_body PC_encode_dict) SPass with SFor _ _ b => b | _ => [] end.
+Definition enc_known : list st := match nth 0 enc_for_body SPass with SIf _ _ b => b | _ => [] end.
+Definition enc_if_then : list st := match nth 2 enc_known SPass with SIf _ a _ => a | _ => [] end.
+Definition enc_if_else : list st := match nth 2 enc_known SPass with SIf _ _ b => b | _ => [] end.
+
+Notation ENC_VARS := ["bitmask"; "bytepos"; "_num"; "_bm"; "value"; "offset"; "length"; "v"; "i"; "result"].
+
+Lemma enc_mask_block f p o (x : N) r ρ :
+  (N.size (Npos p) <= 4096)%N -> N.to_nat (N.size (Npos p)) + 9 <= f ->
+  bytes_ok r -> N.to_nat o + nbytes (Npos p) <= length r ->
+  lookup "result" ρ = Some (PBytes r) -> lookup "val" ρ = Some (PList [PInt (Zpos p); PInt (Z.of_N o)]) ->
+  lookup "value" ρ = Some (PInt (Z.of_N x)) ->
+  exists ρ', exec_block T0 (ccall f) (crun f) enc_if_then ρ = ONorm ρ' /\
+    lookup "result" ρ' = Some (PBytes (xor_at r (N.to_nat o) (int_to_ba (N.shiftl x (pos_ctz p)) (nbytes (Npos p))))) /\
+    agree_except ENC_VARS ρ ρ'.
+Proof.
+  intros Hsz Hf Hokr Hfit Hres Hval Hvalue. set (m := Npos p) in *.
+  unfold enc_if_then, enc_known, enc_for_body. cbn [fn_body PC_encode_dict nth].
+  destruct f as [|f]; [lia|].
+  step. rewrite Hval. cbn [iter_items]. rewrite !len2. cbn [Nat.eqb combine fold_left fst snd].
+  step. step.
+  rewrite exec_block_cons, <- run_S.
+  destruct (nbytes m) as [|k] eqn:Hnb; [pose proof (nbytes_pos m); lia|].
+  pose proof (nbytes_le_size m) as Hnbs.
+  match goal with |- context [crun (S (S f)) _ ?r0] =>
+    destruct (nb_loop k m 1 r0 (S f) Hnb ltac:(lia) ltac:(lk; reflexivity) ltac:(lk; reflexivity)) as (ρ1 & Hrun1 & Hnum1 & Hag1) end.
+  rewrite Hrun1. clear Hrun1.
+  step. rewrite Hag1 by (cbn; intuition discriminate). lk.
+  rewrite exec_block_cons, <- run_S.
+  pose proof (pos_ctz_lt_size p) as Hctz. fold m in Hctz.
+  match goal with |- context [crun (S (S f)) _ ?r0] =>
+    destruct (tz_loop "_bm" "value" BShl (fun v => N.shiftl v 1) ltac:(discriminate) (or_intror (conj eq_refl eq_refl)) p x r0 (S f) ltac:(lia))
+      as (ρ2 & Hrun2 & Hbm2 & Hv2 & Hag2) end.
+  { apply lookup_set_same. }
+  { rewrite lookup_set_other by discriminate. rewrite Hag1 by (cbn; intuition discriminate). lk. exact Hvalue. }
+  rewrite Hrun2. clear Hrun2.
+  (* v = scsi_int_to_ba(value, _num) *)
+  rewrite exec_block_cons. cbn [exec exec_simple eval eval_list]. rewrite Hv2.
+  rewrite Hag2 by (cbn; intuition discriminate). lk. rewrite Hnum1.
+  rewrite iter_shiftl, N2Nat.id.
+  pose proof (py_int_to_ba (N.shiftl x (pos_ctz p)) (1 + Z.of_nat k) (S f) ltac:(lia) ltac:(lia)) as Hi2b.
+  unfold call_fun in Hi2b. rewrite Hi2b. clear Hi2b.
+  replace (Z.to_nat (1 + Z.of_nat k)) with (S k) by lia.
+  (* the XOR loop *)
+  rewrite exec_block_cons, exec_for. cbn [eval]. lk. cbn [len_eval range_eval as_int]. rewrite int_to_ba_length.
+  destruct (Z.ltb_spec 65536 (Z.of_nat (S k))); [lia|]. rewrite Nat2Z.id. cbn [iter_items].
+  match goal with |- context [for_iter T0 ?c ?a "i" _ _ ?r0] =>
+    destruct (xor_loop c a r (int_to_ba (N.shiftl x (pos_ctz p)) (S k)) (N.to_nat o) r0) as (ρ3 & Hrun3 & Hres3 & Hag3) end.
+  { rewrite int_to_ba_length. exact Hfit. }
+  { exact Hokr. }
+  { apply int_to_ba_ok. }
+  { lk. rewrite Hag2 by (cbn; intuition discriminate). lk. rewrite Hag1 by (cbn; intuition discriminate). lk. exact Hres. }
+  { lk. reflexivity. }
+  { lk. rewrite Hag2 by (cbn; intuition discriminate). lk. rewrite Hag1 by (cbn; intuition discriminate). lk. now rewrite N_nat_Z. }
+  rewrite int_to_ba_length in Hrun3. rewrite Hrun3. rewrite exec_block_nil.
+  eexists. split; [reflexivity|]. split; [exact Hres3|].
+  intros y Hy. rewrite Hag3 by (cbn; cbn in Hy; tauto). agree_tac Hy. rewrite Hag2 by (cbn; cbn in Hy; tauto). agree_tac Hy.
+  rewrite Hag1 by (cbn; cbn in Hy; tauto). agree_tac Hy. reflexivity.
+Qed.
+
+Lemma store_slice_model (l x : bytes) (a b : N) : (a <= b)%N ->
+  store_slice (PBytes l) (Some (PInt (Z.of_N a))) (Some (PInt (Z.of_N b))) (PBytes x)
+  = Ok (PBytes (firstn (N.to_nat a) l ++ x ++ skipn (N.to_nat b) l)%list).
+Proof.
+  intros Hab. unfold store_slice. cbn [opt_int as_int]. unfold clip.
+  destruct (Z.ltb_spec (Z.of_N a) 0); [lia|]. destruct (Z.ltb_spec (Z.of_N b) 0); [lia|].
+  f_equal. f_equal. f_equal; [|f_equal].
+  - destruct (Nat.le_gt_cases (N.to_nat a) (length l)) as [Ha|Ha].
+    + f_equal. lia.
+    + rewrite (firstn_all2 (n := N.to_nat a)) by lia. apply firstn_all2. lia.
+  - destruct (Nat.le_gt_cases (N.to_nat b) (length l)) as [Hb|Hb].
+    + f_equal. lia.
+    + rewrite (skipn_all2 (n := N.to_nat b)) by lia. apply skipn_all2. lia.
+Qed.
+
+Lemma enc_blob_block f u s o len (b r : bytes) ρ :
+  unit_name u = Some s ->
+  lookup "result" ρ = Some (PBytes r) -> lookup "val" ρ = Some (PList [PStr s; PInt (Z.of_N o); PInt (Z.of_N len)]) ->
+  lookup "value" ρ = Some (PBytes b) ->
+  exists ρ', exec_block T0 (ccall f) (crun f) enc_if_else ρ = ONorm ρ' /\
+    lookup "result" ρ' = Some (PBytes (firstn (N.to_nat o) r ++ b ++ skipn (N.to_nat (o + len * u)) r)%list) /\
+    agree_except ENC_VARS ρ ρ'.
+Proof.
+  intros Hu Hres Hval Hvalue.
+  unfold enc_if_else, enc_known, enc_for_body. cbn [fn_body PC_encode_dict nth].
+  assert (Hsl : forall a b c : pv, py_slice [a; b; c] (Some 1%Z) None = [b; c]) by reflexivity.
+  assert (Hcases : (u = 1%N /\ s = "b") \/ (u = 2%N /\ s = "w") \/ (u = 4%N /\ s = "dw")).
+  { unfold unit_name in Hu. destruct u as [|[[[]|[]|]|[[]|[]|]|]]; try discriminate; injection Hu as <-; auto. }
+  destruct Hcases as [[-> ->]|[[-> ->]|[-> ->]]].
+  - rewrite exec_block_cons, exec_if. cbn [eval]. rewrite Hval. cbn [index_eval as_int]. rewrite len3, ni30.
+    cbn [nth Z.to_nat cmp_eval py_eq String.eqb Ascii.eqb Bool.eqb truthy].
+    step. rewrite Hval. cbn [slice_eval opt_int as_int]. rewrite Hsl. cbn [iter_items]. rewrite !len2. cbn [Nat.eqb combine fold_left fst snd].
+    step. rewrite Hvalue. cbn [bin_eval as_int]. unfold with_var. lk. rewrite Hres.
+    replace (Z.of_N o + Z.of_N len)%Z with (Z.of_N (o + len * 1)) by lia. rewrite store_slice_model by lia. rewrite !exec_block_nil.
+    eexists. split; [reflexivity|]. split; [lk; reflexivity|].
+    intros x Hx. agree_tac Hx. reflexivity.
+  - rewrite exec_block_cons, exec_if. cbn [eval]. rewrite Hval. cbn [index_eval as_int]. rewrite len3, ni30.
+    cbn [nth Z.to_nat cmp_eval py_eq String.eqb Ascii.eqb Bool.eqb truthy].
+    rewrite exec_block_cons, exec_if. cbn [eval]. rewrite Hval. cbn [index_eval as_int]. rewrite len3, ni30.
+    cbn [nth Z.to_nat cmp_eval py_eq String.eqb Ascii.eqb Bool.eqb truthy].
+    step. rewrite Hval. cbn [slice_eval opt_int as_int]. rewrite Hsl. cbn [iter_items]. rewrite !len2. cbn [Nat.eqb combine fold_left fst snd].
+    step. rewrite Hvalue. cbn [bin_eval as_int]. unfold with_var. lk. rewrite Hres.
+    replace (Z.of_N o + Z.of_N len * 2)%Z with (Z.of_N (o + len * 2)) by lia. rewrite store_slice_model by lia. rewrite !exec_block_nil.
+    eexists. split; [reflexivity|]. split; [lk; reflexivity|].
+    intros x Hx. agree_tac Hx. reflexivity.
+  - rewrite exec_block_cons, exec_if. cbn [eval]. rewrite Hval. cbn [index_eval as_int]. rewrite len3, ni30.
+    cbn [nth Z.to_nat cmp_eval py_eq String.eqb Ascii.eqb Bool.eqb truthy].
+    rewrite exec_block_cons, exec_if. cbn [eval]. rewrite Hval. cbn [index_eval as_int]. rewrite len3, ni30.
+    cbn [nth Z.to_nat cmp_eval py_eq String.eqb Ascii.eqb Bool.eqb truthy].
+    rewrite exec_block_cons, exec_if. cbn [eval]. rewrite Hval. cbn [index_eval as_int]. rewrite len3, ni30.
+    cbn [nth Z.to_nat cmp_eval py_eq String.eqb Ascii.eqb Bool.eqb truthy].
+    step. rewrite Hval. cbn [slice_eval opt_int as_int]. rewrite Hsl. cbn [iter_items]. rewrite !len2. cbn [Nat.eqb combine fold_left fst snd].
+    step. rewrite Hvalue. cbn [bin_eval as_int]. unfold with_var. lk. rewrite Hres.
+    replace (Z.of_N o + Z.of_N len * 4)%Z with (Z.of_N (o + len * 4)) by lia. rewrite store_slice_model by lia. rewrite !exec_block_nil.
+    eexists. split; [reflexivity|]. split; [lk; reflexivity|].
+    intros x Hx. agree_tac Hx. reflexivity.
+Qed.
+
+Lemma lookup_map {A B} (g : A -> B) (l : list (string * A)) k :
+  lookup k (map (fun kf => (fst kf, g (snd kf))) l) = option_map g (lookup k l).
+Proof. induction l as [|[k0 a] l IH]; [reflexivity|]. cbn [map fst snd lookup]. destruct (String.eqb k k0); [reflexivity|exact IH]. Qed.
+
+Lemma lookup_in {A} (l : list (string * A)) k a : lookup k l = Some a -> In (k, a) l.
+Proof.
+  induction l as [|[k0 a0] l IH]; [discriminate|]. cbn [lookup]. destruct (String.eqb_spec k k0) as [->|].
+  - intros [= ->]. now left.
+  - intros H. right. auto.
+Qed.
+
+Definition values_ok (dv : list (string * value)) : Prop :=
+  Forall (fun kv => match snd kv with VB b => bytes_ok b | VI _ => True end) dv.
+
+Definition enc_inv (L : layout) (dv : list (string * value)) (r' : bytes) (ds : list pv) (ρ : env) : Prop :=
+  exists done rest cur, dv = (done ++ rest)%list /\ ds = map (fun kv => PStr (fst kv)) rest /\
+    lookup "data_dict" ρ = Some (PDict (dict_of_decoded dv)) /\ lookup "check_dict" ρ = Some (PDict (pvs_of_layout L)) /\
+    lookup "result" ρ = Some (PBytes cur) /\ bytes_ok cur /\ encode_dict rest L cur = Ok r'.
+
+Lemma enc_entry f L dv r' k v rest done cur ρ :
+  forallb (fun kf => fdesc_py_ok (snd kf)) L = true -> Forall (fun kf => fdesc_fuel (snd kf) <= f) L ->
+  names_distinct (map fst dv) = true -> values_ok dv -> dv = (done ++ (k, v) :: rest)%list ->
+  lookup "data_dict" ρ = Some (PDict (dict_of_decoded dv)) -> lookup "check_dict" ρ = Some (PDict (pvs_of_layout L)) ->
+  lookup "result" ρ = Some (PBytes cur) -> bytes_ok cur -> encode_dict ((k, v) :: rest) L cur = Ok r' ->
+  exists ρ' cur', exec_block T0 (ccall f) (crun f) enc_for_body (dict_set ρ "key" (PStr k)) = ONorm ρ' /\
+    lookup "data_dict" ρ' = Some (PDict (dict_of_decoded dv)) /\ lookup "check_dict" ρ' = Some (PDict (pvs_of_layout L)) /\
+    lookup "result" ρ' = Some (PBytes cur') /\ bytes_ok cur' /\ encode_dict rest L cur' = Ok r'.
+Proof.
+  intros Hok Hfuel Hdist Hvals Hdv Hdd Hcd Hres Hokc Henc.
+  unfold enc_for_body. cbn [fn_body PC_encode_dict nth].
+  rewrite exec_block_cons, exec_if. cbn [eval]. lk. rewrite Hcd. cbn [in_eval]. unfold pvs_of_layout at 1. rewrite lookup_map.
+  cbn [encode_dict] in Henc.
+  destruct (lookup k L) as [fd|] eqn:Hlk; cbn [option_map negb truthy].
+  2:{ rewrite exec_block_nil, exec_block_nil. exists (dict_set ρ "key" (PStr k)), cur. lk. repeat split; assumption. }
+  destruct (encode1 cur fd v) as [cur'|e] eqn:He1; [|discriminate].
+  pose proof (lookup_in _ _ _ Hlk) as Hin.
+  rewrite forallb_forall in Hok. pose proof (Hok _ Hin) as Hok1. rewrite Forall_forall in Hfuel. pose proof (Hfuel _ Hin) as Hf1. cbn [snd] in Hok1, Hf1.
+  assert (Hv : In (k, v) dv) by (rewrite Hdv; apply in_or_app; right; now left).
+  unfold values_ok in Hvals. rewrite Forall_forall in Hvals. pose proof (Hvals _ Hv) as Hvok. cbn [snd] in Hvok.
+  fold enc_known.
+  change (exec_block T0 (ccall f) (crun f) _ (dict_set ρ "key" (PStr k))) with (exec_block T0 (ccall f) (crun f) enc_known (dict_set ρ "key" (PStr k))).
+  unfold enc_known, enc_for_body. cbn [fn_body PC_encode_dict nth].
+  assert (Hlkv : lookup k (dict_of_decoded dv) = Some (pv_of_value v)).
+  { unfold dict_of_decoded. rewrite Hdv. apply (lookup_mid pv_of_value). rewrite <- Hdv. exact Hdist. }
+  step. rewrite Hdd. cbn [index_eval]. rewrite Hlkv.
+  step. rewrite Hcd. cbn [index_eval]. unfold pvs_of_layout at 1. rewrite lookup_map, Hlk. cbn [option_map].
+  rewrite exec_block_cons, exec_if. cbn [eval]. lk.
+  destruct fd as [m o|u o len]; cbn [fdesc_py_ok fdesc_fuel pv_of_fdesc len_eval] in *; rewrite ?len2, ?len3; cbn [cmp_eval py_eq as_int].
+  - change (Z.eqb (Z.of_nat 2) 2) with true. cbn [truthy].
+    apply andb_prop in Hok1. destruct Hok1 as [Hpos Hsz]. apply N.ltb_lt in Hpos. apply N.leb_le in Hsz.
+    destruct m as [|p]; [lia|]. destruct v as [x|b]; [|discriminate He1]. cbn [encode1 ctz] in He1.
+    destruct (Nat.leb_spec (N.to_nat o + nbytes (Npos p)) (length cur)) as [Hfit|]; [|discriminate]. injection He1 as <-.
+    match goal with |- context [exec_block _ _ _ _ ?r0] =>
+      destruct (enc_mask_block f p o x cur r0 Hsz Hf1 Hokc Hfit ltac:(lk; exact Hres) ltac:(lk; reflexivity) ltac:(lk; reflexivity))
+        as (ρ1 & Hrun & Hres1 & Hag) end.
+    unfold enc_if_then, enc_known, enc_for_body in Hrun. cbn [fn_body PC_encode_dict nth] in Hrun. rewrite Hrun. rewrite !exec_block_nil.
+    eexists ρ1, _. split; [reflexivity|]. rewrite !Hag by (cbn; intuition discriminate). lk.
+    split; [exact Hdd|]. split; [exact Hcd|]. split; [exact Hres1|]. split; [|exact Henc].
+    apply xor_at_ok; [exact Hokc|apply int_to_ba_ok].
+  - change (Z.eqb (Z.of_nat 3) 2) with false. cbn [truthy].
+    destruct (unit_name u) as [s|] eqn:Hu; [|discriminate]. destruct v as [x|b]; [discriminate He1|]. cbn [encode1] in He1. injection He1 as <-.
+    match goal with |- context [exec_block _ _ _ _ ?r0] =>
+      destruct (enc_blob_block f u s o len b cur r0 Hu ltac:(lk; exact Hres) ltac:(lk; reflexivity) ltac:(lk; reflexivity))
+        as (ρ1 & Hrun & Hres1 & Hag) end.
+    unfold enc_if_else, enc_known, enc_for_body in Hrun. cbn [fn_body PC_encode_dict nth] in Hrun. rewrite Hrun. rewrite !exec_block_nil.
+    eexists ρ1, _. split; [reflexivity|]. rewrite !Hag by (cbn; intuition discriminate). lk.
+    split; [exact Hdd|]. split; [exact Hcd|]. split; [exact Hres1|]. split; [|exact Henc].
+    apply bytes_ok_app. split; [now apply bytes_ok_firstn|]. apply bytes_ok_app. split; [exact Hvok|now apply bytes_ok_skipn].
+Qed.
+
+Lemma keys_of_dict (dv : list (string * value)) :
+  map (fun kv : string * pv => PStr (fst kv)) (dict_of_decoded dv) = map (fun kv : string * value => PStr (fst kv)) dv.
+Proof. unfold dict_of_decoded. rewrite map_map. reflexivity. Qed.
+
+(* encode_dict of the regenerated source = encode_dict of the hand-written model, whenever the model returns a buffer *)
+Theorem py_encode_dict_refines : forall (L : layout) (dv : list (string * value)) (r r' : bytes) f,
+  forallb (fun kf => fdesc_py_ok (snd kf)) L = true -> Forall (fun kf => fdesc_fuel (snd kf) <= f) L ->
+  names_distinct (map fst dv) = true -> values_ok dv -> bytes_ok r ->
+  encode_dict dv L r = Ok r' ->
+  call_fun T0 conv_program (S f) "converter.encode_dict" [PDict (dict_of_decoded dv); pv_of_layout L; PBytes r] = Ok (PBytes r').
+Proof.
+  intros L dv r r' f Hok Hfuel Hdist Hvals Hokr Henc.
+  unfold call_fun, call_with. cbn [lookup conv_program String.eqb Ascii.eqb Bool.eqb fn_params fn_body PC_encode_dict bind_params].
+  rewrite run_S, exec_if. cbn [eval truthy].
+  rewrite exec_block_cons, exec_for. cbn [eval lookup String.eqb Ascii.eqb Bool.eqb iter_items].
+  rewrite keys_of_dict. change (pv_of_layout L) with (PDict (pvs_of_layout L)).
+  set (ρ0 := [("data_dict", PDict (dict_of_decoded dv)); ("check_dict", PDict (pvs_of_layout L)); ("result", PBytes r)]).
+  pose proof (for_consumes T0 (ccall f) (crun f) "key" enc_for_body (enc_inv L dv r')) as FC.
+  destruct (FC) with (ds := map (fun kv : string * value => PStr (fst kv)) dv) (ρ := ρ0) as (ρ' & Hrun & Hinv).
+  - intros d ds ρ (done & rest & cur & Hdv & Hds & Hdd & Hcd & Hres & Hokc & Hrem).
+    destruct rest as [|[k v] rest]; [discriminate|]. cbn [map fst] in Hds. injection Hds as -> ->.
+    destruct (enc_entry f L dv r' k v rest done cur ρ Hok Hfuel Hdist Hvals Hdv Hdd Hcd Hres Hokc Hrem)
+      as (ρ1 & cur' & Hrun1 & Hdd1 & Hcd1 & Hres1 & Hok1 & Hrem1).
+    exists ρ1. split; [exact Hrun1|]. exists (done ++ [(k, v)])%list, rest, cur'. repeat split; try assumption.
+    rewrite <- app_assoc. exact Hdv.
+  - exists [], dv, r. repeat split; try reflexivity; assumption.
+  - unfold enc_for_body in Hrun. cbn [fn_body PC_encode_dict nth] in Hrun. rewrite Hrun.
+    destruct Hinv as (done & rest & cur & Hdv & Hds & _ & _ & Hres & _ & Hrem). symmetry in Hds. apply map_eq_nil in Hds. subst rest.
+    cbn [encode_dict] in Hrem. injection Hrem as <-.
+    rewrite exec_block_cons. cbn [exec exec_simple eval]. rewrite Hres. reflexivity.
+Qed.
+
+(* the fuel a well-formed table needs: masks of at most 4096 bits *)
+Lemma fuel_bound (L : layout) f : forallb (fun kf => fdesc_py_ok (snd kf)) L = true -> Z.to_nat 4200 <= f ->
+  Forall (fun kf => fdesc_fuel (snd kf) <= f) L.
+Proof.
+  intros Hok Hf. rewrite forallb_forall in Hok. apply Forall_forall. intros [k fd] Hin. specialize (Hok _ Hin). cbn [snd] in *.
+  destruct fd as [m o|u o len]; cbn [fdesc_py_ok fdesc_fuel] in *; [|lia].
+  apply andb_prop in Hok. destruct Hok as [_ Hsz]. apply N.leb_le in Hsz. lia.
+Qed.
